@@ -49,6 +49,16 @@ def beDecode (b : Bytes) : Nat := b.foldl (fun acc x => acc * 256 + x.toNat) 0
 def readUint (n : Nat) (b : Bytes) : Res (Nat × Bytes) :=
   if b.length < n then .error .ShortRead else .ok (beDecode (b.take n), b.drop n)
 
+/-- `readUint` without the O(input) `length` (what the compiled driver runs: `@[csimp]`, proved equal) -/
+def readUintFast (n : Nat) (b : Bytes) : Res (Nat × Bytes) :=
+  if (b.take n).length < n then .error .ShortRead else .ok (beDecode (b.take n), b.drop n)
+
+@[csimp] theorem readUint_eq_fast : @readUint = @readUintFast := by
+  funext n b
+  have h : ((b.take n).length < n) = (b.length < n) := by
+    rw [List.length_take]; exact propext ⟨fun h => by omega, fun h => by omega⟩
+  simp only [readUint, readUintFast, h]
+
 /-! ## BigSize -/
 
 /-- mirrors util/ser.rs `impl Writeable for BigSize` -/
@@ -148,6 +158,23 @@ def Check.canon : Check → Bytes → Option Bytes
   | .onionKey, b => if validPoint b then some b else some (List.replicate 33 0)
   | .accountable, b => if b = [7] then some [7] else some [0]
 
+/-- one component of an address descriptor -/
+inductive AddrPart
+  | bytes (n : Nat)   -- `[u8; n]`: n raw bytes (`read_exact`)
+  | u16               -- big-endian u16 (ports, the onion-v3 checksum)
+  | u8                -- one byte (the onion-v3 version)
+  | hostname          -- util/ser.rs `Hostname`: u8 length, that many bytes, every byte one of [A-Za-z0-9._-]
+  deriving DecidableEq, Repr
+
+/-- one variant of `SocketAddress` as the source declares it -/
+structure AddrKind where
+  id : Nat                 -- descriptor type byte: writer literal = reader match arm = `get_id`
+  name : String            -- enum variant
+  parts : List AddrPart    -- fields in reader order (= writer order, checked by the translator)
+  lenConst : Nat           -- `SocketAddress::len`: the constant of this variant's arm ("1-byte type not recorded")
+  lenHost : Bool           -- `SocketAddress::len`: the arm adds `hostname.len()`
+  deriving DecidableEq, Repr
+
 inductive FieldTy
   | uint (n : Nat)               -- n-byte big-endian unsigned integer (u8/u16/u32/u64; i64 as its bit pattern)
   | fixed (n : Nat) (c : Check)  -- exactly n bytes, then `c`
@@ -159,6 +186,8 @@ inductive FieldTy
   | restBytes                    -- WithoutLength<Vec<u8>>: everything up to the end of the reader
   | pair (a b : FieldTy)         -- two fields in sequence (impl_writeable! structs are nested pairs)
   | vec (e : FieldTy)            -- impl_for_vec!: CollectionLength count, then the elements
+  | sockAddr (kinds : List AddrKind)  -- ln/msgs.rs SocketAddress (`impl Readable for SocketAddress`: unknown type ⇒ UnknownVersion)
+  | chunks (n : Nat)             -- WithoutLength<Vec<T>> for a T of n raw bytes (ChainHash): n-byte elements up to the end of the reader
   deriving DecidableEq, Repr
 
 /-- untyped values; a vector is a right-nested `pair` chain ending in `unit` -/
@@ -176,9 +205,181 @@ def Val.allElems (p : Val → Bool) : Val → Bool
   | .unit => true
   | _ => false
 
+/-- a list as a vector value (`pair … (pair … unit)`) and back -/
+def Val.ofList : List Val → Val
+  | [] => .unit
+  | x :: xs => .pair x (Val.ofList xs)
+
+def Val.toList : Val → List Val
+  | .pair x xs => x :: xs.toList
+  | _ => []
+
+/-- element codec of `FieldTy.chunks n`: raw bytes, exactly n of them -/
+def chunkEnc : Val → Bytes
+  | .bytes b => b
+  | _ => []
+def chunkOk (n : Nat) : Val → Bool
+  | .bytes b => b.length == n
+  | _ => false
+
 def encList (enc : Val → Bytes) : Val → Bytes
   | .pair x xs => enc x ++ encList enc xs
   | _ => []
+
+/-! ## SocketAddress (ln/msgs.rs `enum SocketAddress`), table-driven
+
+  The table of descriptor kinds (`Generated/MsgSchemas.lean::sockAddrKinds`) is EXTRACTED from the enum
+  declaration, the reader arms of `impl Readable for Result<SocketAddress, u8>`, the writer arms of
+  `impl Writeable for SocketAddress`, `SocketAddress::get_id` and `SocketAddress::len` on every run. -/
+
+/-- an address value: descriptor type and one value per part -/
+structure SockAddr where
+  id : Nat
+  vals : List Val
+  deriving DecidableEq, Repr
+
+/-- mirrors util/ser.rs `Hostname::str_is_valid_hostname` on bytes: `c.is_ascii_alphanumeric() || c == '.' || c == '_' || c == '-'`
+    (a byte ≥ 0x80 is either invalid UTF-8 or part of a non-ASCII char: rejected both ways) -/
+def isHostChar (b : UInt8) : Bool :=
+  let x := b.toNat
+  (48 ≤ x && x ≤ 57) || (65 ≤ x && x ≤ 90) || (97 ≤ x && x ≤ 122) || x == 46 || x == 95 || x == 45
+
+/-- mirrors the `Readable` impls of `[u8; N]`, `u16`, `u8`, and util/ser.rs `impl Readable for Hostname`
+    (length byte, `read_exact` ⇒ ShortRead, then `Hostname::try_from` ⇒ InvalidValue) -/
+def AddrPart.decode : AddrPart → Bytes → Res (Val × Bytes)
+  | .bytes n, b => if b.length < n then .error .ShortRead else .ok (.bytes (b.take n), b.drop n)
+  | .u16, b =>
+    match readUint 2 b with
+    | .error e => .error e
+    | .ok (x, r) => .ok (.nat x, r)
+  | .u8, b =>
+    match readUint 1 b with
+    | .error e => .error e
+    | .ok (x, r) => .ok (.nat x, r)
+  | .hostname, b =>
+    match readUint 1 b with
+    | .error e => .error e
+    | .ok (len, r) =>
+      if r.length < len then .error .ShortRead
+      else if (r.take len).all isHostChar then .ok (.bytes (r.take len), r.drop len)
+      else .error .InvalidValue
+
+/-- mirrors the `Writeable` impls; `Hostname::write`: `self.len().write(w)?; w.write_all(self.as_bytes())` -/
+def AddrPart.encode : AddrPart → Val → Bytes
+  | .bytes _, .bytes b => b
+  | .u16, .nat x => beEncode 2 x
+  | .u8, .nat x => beEncode 1 x
+  | .hostname, .bytes b => beEncode 1 b.length ++ b
+  | _, _ => []
+
+def AddrPart.valid : AddrPart → Val → Bool
+  | .bytes n, .bytes b => b.length == n
+  | .u16, .nat x => x < 65536
+  | .u8, .nat x => x < 256
+  | .hostname, .bytes b => b.length < 256 && b.all isHostChar
+  | _, _ => false
+
+/-- the fields of one reader arm, in order; the first error wins -/
+def decodeParts : List AddrPart → Bytes → Res (List Val × Bytes)
+  | [], b => .ok ([], b)
+  | p :: ps, b =>
+    match p.decode b with
+    | .error e => .error e
+    | .ok (v, r) =>
+      match decodeParts ps r with
+      | .error e => .error e
+      | .ok (vs, r') => .ok (v :: vs, r')
+
+def encodeParts : List AddrPart → List Val → Bytes
+  | p :: ps, v :: vs => p.encode v ++ encodeParts ps vs
+  | _, _ => []
+
+def validParts : List AddrPart → List Val → Bool
+  | [], [] => true
+  | p :: ps, v :: vs => p.valid v && validParts ps vs
+  | _, _ => false
+
+/-- number of bytes of a part that do not depend on the value (hostname: its length byte) -/
+def AddrPart.staticLen : AddrPart → Nat
+  | .bytes n => n
+  | .u16 => 2
+  | .u8 => 1
+  | .hostname => 1
+
+def staticLen (ps : List AddrPart) : Nat := (ps.map (·.staticLen)).sum
+
+/-- `hostname.len()` summed over the hostname parts of a descriptor -/
+def hostLen : List AddrPart → List Val → Nat
+  | .hostname :: ps, .bytes b :: vs => b.length + hostLen ps vs
+  | _ :: ps, _ :: vs => hostLen ps vs
+  | _, _ => 0
+
+def findKind (kinds : List AddrKind) (id : Nat) : Option AddrKind := kinds.find? (fun k => k.id == id)
+
+/-- mirrors ln/msgs.rs `SocketAddress::len`: "Strict byte-length of address descriptor, 1-byte type not recorded" —
+    the constant of the variant's arm, plus `hostname.len()` where the arm says so.  NOT derived from the encoding: that the
+    two agree is Props/C13 `sockaddr_len_is_encoded_length`. -/
+def SockAddr.len (kinds : List AddrKind) (a : SockAddr) : Nat :=
+  match findKind kinds a.id with
+  | some k => k.lenConst + (if k.lenHost then hostLen k.parts a.vals else 0)
+  | none => 0
+
+/-- mirrors ln/msgs.rs `impl Writeable for SocketAddress`: the type byte, then the fields -/
+def SockAddr.encode (kinds : List AddrKind) (a : SockAddr) : Bytes :=
+  match findKind kinds a.id with
+  | some k => UInt8.ofNat a.id :: encodeParts k.parts a.vals
+  | none => []
+
+def SockAddr.valid (kinds : List AddrKind) (a : SockAddr) : Bool :=
+  match findKind kinds a.id with
+  | some k => validParts k.parts a.vals
+  | none => false
+
+/-- mirrors ln/msgs.rs `impl Readable for Result<SocketAddress, u8>`: the type byte; a known type ⇒ its fields
+    (`inl address`); any other byte ⇒ `Ok(Err(byte))` (`inr byte`, nothing else consumed) -/
+def decodeAddrResult (kinds : List AddrKind) : Bytes → Res ((SockAddr ⊕ UInt8) × Bytes)
+  | [] => .error .ShortRead
+  | t :: r =>
+    match findKind kinds t.toNat with
+    | some k =>
+      match decodeParts k.parts r with
+      | .error e => .error e
+      | .ok (vs, r') => .ok (.inl ⟨k.id, vs⟩, r')
+    | none => .ok (.inr t, r)
+
+/-- mirrors ln/msgs.rs `impl Readable for SocketAddress`: an unknown descriptor type is `UnknownVersion` -/
+def decodeAddr (kinds : List AddrKind) (b : Bytes) : Res (SockAddr × Bytes) :=
+  match decodeAddrResult kinds b with
+  | .error e => .error e
+  | .ok (.inl a, r) => .ok (a, r)
+  | .ok (.inr _, _) => .error .UnknownVersion
+
+/-- decidable well-formedness of the extracted table: type bytes fit a byte and are pairwise distinct; the constant of every
+    `SocketAddress::len` arm is the number of value-independent bytes of the variant's fields, and the arm adds `hostname.len()`
+    exactly when the variant has a hostname.  Breaks (Props/C13 `sockaddr_kinds_wf`, by `decide`) when a `len` constant, a
+    field width or a type byte changes inconsistently. -/
+def kindsWf (kinds : List AddrKind) : Bool :=
+  kinds.all (fun k => k.id < 256 && k.lenConst == staticLen k.parts && k.lenHost == k.parts.contains .hostname) &&
+  (kinds.map (·.id)).Nodup
+
+/-- the arithmetic of an "encoded short_channel_id list" (QueryShortChannelIds / ReplyChannelRange) as the source states it,
+    translated by tools/gen_msg_schemas.py: reader `encoding_len == 0 || (encoding_len - 1) % 8 != 0` ⇒ InvalidValue, element count,
+    writer `encoding_len`, the `EncodingType` the reader accepts and the one the writer emits -/
+structure ScidRules where
+  badLen : Nat → Bool
+  count : Nat → Nat
+  encLen : Nat → Nat
+  accepted : Nat
+  written : Nat
+
+/-- what the translated arithmetic of a reader / writer pair has to say for the theorems to hold (each instance is `rfl` on the
+    generated definitions: it stops being so when the source changes the arithmetic) -/
+structure ScidRules.Spec (rules : ScidRules) : Prop where
+  badLen : ∀ n, rules.badLen n = (decide (n = 0) || decide ((n - 1) % 8 ≠ 0))
+  count : ∀ n, rules.count n = (n - 1) / 8
+  encLen : ∀ n, rules.encLen n = 1 + n * 8
+  same : rules.accepted = rules.written
+  byte : rules.written < 256
 
 /-- mirrors the `Writeable` impls listed at each constructor of `FieldTy` -/
 def FieldTy.encode : FieldTy → Val → Bytes
@@ -191,7 +392,14 @@ def FieldTy.encode : FieldTy → Val → Bytes
   | .restBytes, .bytes b => b
   | .pair a b, .pair x y => a.encode x ++ b.encode y
   | .vec e, v => CollLen.encode v.len ++ encList e.encode v
+  | .sockAddr kinds, .pair (.nat id) vs => SockAddr.encode kinds ⟨id, vs.toList⟩
+  | .chunks _, v => encList chunkEnc v
   | _, _ => []
+
+/-- the first `k` chunks of `n` bytes as a vector value -/
+def chunkVals (n : Nat) : Nat → Bytes → Val
+  | 0, _ => .unit
+  | k + 1, b => .pair (.bytes (b.take n)) (chunkVals n k (b.drop n))
 
 /-- read `n` elements in sequence. mirrors the `for _ in 0..len.0` loop of impl_readable_for_vec! -/
 def decN (dec : Bytes → Res (Val × Bytes)) : Nat → Bytes → Res (Val × Bytes)
@@ -246,6 +454,14 @@ def FieldTy.decode : FieldTy → Bytes → Res (Val × Bytes)
     match CollLen.decode b with
     | .error e => .error e
     | .ok (n, r) => decN e.decode n r
+  | .sockAddr kinds, b =>
+    match decodeAddr kinds b with
+    | .error e => .error e
+    | .ok (a, r) => .ok (.pair (.nat a.id) (Val.ofList a.vals), r)
+  | .chunks n, b =>
+    -- util/ser.rs `impl LengthReadable for WithoutLength<Vec<T>>`: elements until nothing is left; a partial element is the
+    -- element reader's ShortRead
+    if b.length % n = 0 then .ok (chunkVals n (b.length / n) b, []) else .error .ShortRead
 
 /-- the values a decoder can produce / an encoder accepts -/
 def FieldTy.valid : FieldTy → Val → Bool
@@ -259,12 +475,15 @@ def FieldTy.valid : FieldTy → Val → Bool
   | .restBytes, .bytes _ => true
   | .pair a b, .pair x y => a.valid x && b.valid y
   | .vec e, v => v.len < 2 ^ 64 && v.allElems e.valid
+  | .sockAddr kinds, .pair (.nat id) vs => vs.allElems (fun _ => true) && SockAddr.valid kinds ⟨id, vs.toList⟩
+  | .chunks n, v => v.allElems (chunkOk n)
   | _, _ => false
 
 /-- the encoding determines its own end (can be followed by more data) -/
 def FieldTy.selfDelim : FieldTy → Bool
   | .hzd _ => false
   | .restBytes => false
+  | .chunks _ => false
   | .pair a b => a.selfDelim && b.selfDelim
   | _ => true
 
@@ -280,6 +499,8 @@ def FieldTy.wf : FieldTy → Bool
   | .fixed n c => c.widthOk n
   | .pair a b => a.wf && a.selfDelim && b.wf
   | .vec e => e.wf && e.selfDelim
+  | .sockAddr kinds => kindsWf kinds
+  | .chunks n => decide (0 < n)
   | _ => true
 
 /-- no HighZeroBytesDroppedBigSize inside (the re-encode-stability proof covers these types) -/
